@@ -14,13 +14,13 @@ RULE = ('Cases: arbitrary sample-by-k-mer tables (1..12 samples x 1..60 rows; ro
         'only-ambiguous, one-unambiguous-rest-ambiguous, every presence count 1..n) built through `ska build` and verified '
         'by read-out.  For each table the full grid 4 filters x filter-ambig-as-missing x ambig-mask x no-gap-only-sites is '
         'run at min-freq values j/n (j=0..n) and 0.9/0.5/0.7/0.3; the column multiset of `ska align` is compared with the '
-        'row predicate evaluated in exact rational arithmetic, and stricter settings must give sub-multisets of laxer ones.  '
+        'row predicate evaluated in exact rational arithmetic, and stricter settings must give sub-multisets of laxer ones.  A quarter of the files first pass through `ska weed --filter-ambig-as-missing` with a one-sample threshold (stored files with a history).  '
         'Non-trivial: the table has rows that pass and rows that fail under the setting; distinct = distinct (table, setting).')
 ASSUMPTIONS = ['min-freq is passed as a short decimal string; the oracle uses the exact rational of that string',
                'tables are constructed through ska build (one record arm+base+arm+N per cell), verified before judging']
 FILTERS = ['no-filter', 'no-const', 'no-ambig', 'no-ambig-or-const']
 REQUIRED = {t: ['filter:' + f for f in FILTERS] + ['rows_kept', 'rows_dropped', 'threshold_boundary_rows',
-                                                   'submultiset_relations_checked', 'float_sensitive_thresholds']
+                                                   'submultiset_relations_checked', 'float_sensitive_thresholds', 'pretreated_files']
             for t in ('quick', 'thorough')}
 
 
@@ -58,6 +58,10 @@ def plan(tier, seed, rng, scale):
         descs.append({'ns': n_, 'k': rng.choice([7, 15, 31, 33]), 'seed': rng.getrandbits(32), 'full': False, 'mf': f_})
     for i, d in enumerate(descs):
         d['chk'] = (i % 6 == 0)
+        if i % 4 == 1 and d['ns'] <= 12 and (10000 % d['ns'] == 0 or d['ns'] in (3, 6, 7, 9, 11, 12)):
+            # min-freq giving a weed threshold of exactly one sample (floor(f*n) = 1)
+            d['pretreat'] = {1: '1', 2: '0.5', 3: '0.34', 4: '0.25', 5: '0.2', 6: '0.17', 7: '0.15', 8: '0.125', 9: '0.12',
+                             10: '0.1', 11: '0.1', 12: '0.09'}[d['ns']]
     return descs
 
 
@@ -139,6 +143,22 @@ def run_case(desc, ctx):
         if T != rows:
             res.count('table_readout_mismatch(C01)')
             return res
+        if desc.get('pretreat'):
+            # the stored file first goes through `ska weed --filter-ambig-as-missing` with a threshold of one sample:
+            # by the documented effect this only drops rows without any unambiguous base; align must then treat the
+            # stored k-mers like those of any other file
+            pt = ctx.sh(b, 'weed', ctx.path('t.skf'), '--filter-ambig-as-missing', '--min-freq', desc['pretreat'])
+            rows_t = M.t_filter(rows, 'no-filter', M.floor_thr(desc['pretreat'], ns), True, False, False)
+            try:
+                hdr, T = G.nk(ctx, ctx.path('t.skf'), binary=b)
+            except (G.NkFailed, ValueError):
+                T = None
+            if pt.returncode != 0 or T != rows_t or not rows_t:
+                res.count('pretreatment_not_as_modelled(C10)')
+                return res
+            rows = rows_t
+            if variant == 'rel':
+                res.count('pretreated_files')
         names_exp = ['s%d' % i for i in range(ns)]
         got_by_setting = {}
         settings = settings_for(rng, ns, desc['full'] and variant == 'rel', desc.get('mf'))
